@@ -15,6 +15,8 @@ type Block = cfg.Block
 // Graph is the control-flow graph of one function body (go/cfg) with the
 // helpers the path rules need.
 type Graph struct {
+	nilUse map[*ast.Ident]*[2]bool // nilAtUse cache (nil entry: being computed)
+	defCache map[defKey]defVal
 	Fn          *Fn
 	C           *cfg.CFG
 	Blocks      []*cfg.Block // live blocks
@@ -66,6 +68,29 @@ func (f *Fn) Graph() *Graph {
 		return f.g
 	}
 	c := cfg.New(f.Body, func(call *ast.CallExpr) bool { return !f.noReturn(call) })
+	// go/cfg puts the communication statement of every select clause into the block before the select (its channel
+	// operands are evaluated there); the send / receive itself happens only in the chosen clause: move each one to the
+	// head of its clause's body block.
+	bodyOf := map[ast.Stmt]*cfg.Block{}
+	for _, b := range c.Blocks {
+		if b.Kind == cfg.KindSelectCaseBody {
+			bodyOf[b.Stmt] = b
+		}
+	}
+	if len(bodyOf) > 0 {
+		for _, b := range c.Blocks {
+			var keep []ast.Node
+			for _, n := range b.Nodes {
+				if cc, ok := f.Prog.Parent(n).(*ast.CommClause); ok && cc.Comm == n && bodyOf[cc] != nil && bodyOf[cc] != b {
+					tgt := bodyOf[cc]
+					tgt.Nodes = append([]ast.Node{n}, tgt.Nodes...)
+					continue
+				}
+				keep = append(keep, n)
+			}
+			b.Nodes = keep
+		}
+	}
 	g := &Graph{Fn: f, C: c}
 	for _, b := range c.Blocks {
 		if b.Live {
@@ -529,8 +554,62 @@ func (g *Graph) AfterLoop(s Site, rs *ast.RangeStmt) bool {
 	if loop == nil {
 		return false
 	}
-	seen := g.reachable(func(b *cfg.Block, k int) bool { return b == loop && k == 1 })
-	return !seen[s.B]
+	cut := func(b *cfg.Block, k int) bool { return b == loop && k == 1 }
+	seen := g.reachable(cut)
+	if !seen[s.B] {
+		return true
+	}
+	// path-sensitively: the paths around the loop (an earlier `goto` to a common error exit) may all fail a
+	// condition before the site
+	return !g.feasiblyReachable(s, cut)
+}
+
+// feasiblyReachable: some path from the entry to the site that takes none of the cut edges is compatible with the
+// tracked flags and conditions.
+func (g *Graph) feasiblyReachable(s Site, cut func(b *cfg.Block, k int) bool) bool {
+	if g.Entry == nil || s.B == nil {
+		return true
+	}
+	ga := g.newGuardAnalysis(GNever(), true)
+	in := map[*cfg.Block][]uint64{g.Entry: ga.full()}
+	work := []*cfg.Block{g.Entry}
+	for len(work) > 0 {
+		b := work[len(work)-1]
+		work = work[:len(work)-1]
+		st := in[b]
+		for _, n := range b.Nodes {
+			st = ga.transferNode(n, st)
+		}
+		for k, nb := range b.Succs {
+			if cut(b, k) {
+				continue
+			}
+			t := st
+			if al := ga.edgeAllowed(Edge{b, k}); al != nil {
+				t = bsIntersect(st, al)
+			}
+			if bsEmpty(t) {
+				continue
+			}
+			cur, ok := in[nb]
+			if !ok {
+				cp := make([]uint64, len(t))
+				copy(cp, t)
+				in[nb] = cp
+				work = append(work, nb)
+			} else if bsUnion(cur, t) {
+				work = append(work, nb)
+			}
+		}
+	}
+	if _, ok := in[s.B]; !ok {
+		return false
+	}
+	i := s.I
+	if i < 0 {
+		i = 0
+	}
+	return !bsEmpty(ga.stateAt(in, s.B, i))
 }
 
 // RangeLoops returns the range statements of the function (literals excluded)
